@@ -550,6 +550,9 @@ impl Campaign for C06 {
         v.extend(seeded_scenario("( )", &[], vec![0]));
         v.extend(seeded_scenario("5 + ( )", &[], vec![0]));
         v.extend(seeded_scenario("{ ( ) }~~", &[], vec![0]));
+        // D28: a side-effect block directly in front of a nested expression: the expression value is never put
+        v.extend(seeded_scenario("8 + [i1] { 1 }", &["i1"], vec![0, 1]));
+        v.extend(seeded_scenario("{ 8 >= [i1] { 1 } }~~", &["i1"], vec![0, 1]));
         // an else after a default (found by the thorough tier's operator triples): same family as D21
         v.extend(seeded_scenario("i1 ?> i2 |> i3 |> i4", &["i1", "i2", "i3", "i4"], (0..16).collect()));
         v.extend(seeded_scenario("i1 ?> i2._ |> !!i3 |> _.i4", &["i1", "i2", "i3", "i4"], (0..16).collect()));
